@@ -232,7 +232,7 @@ def harnesses(tier, seed, which, want=None):
             call = f"{fn}(C, v, {pexpr}, s)"
             hs.append(Harness(f"l2.{which}.{name}{suffix}", "props.l2", ps, call + "[0]", replay_call=call,
                               setup=f"C = case({name!r}, {th})", what=f"{which} over schema {name}"))
-        if which == "rt" and ("defaults" in tags or name in ("rec_flat", "pair_map_long", "union_two_recs")):
+        if which == "rt" and name in ("rec_defaults", "rec_defaults3", "rec_defaults2", "rec_flat", "pair_map_long", "union_two_recs"):
             a = shape.ann(c["ir"], c["names"], c["cfg"])
             call = "ob_roundtrip_mk(C, v, mk)"
             sv = shape.samples(c["ir"], c["names"], c["cfg"], seed + 31, n=2)
